@@ -763,6 +763,59 @@ func ruleIndentSibling(c *Ctx) []Obligation {
 		{"Write", m.write, c.renderShapeOf(m.write, param(m.write, 1), func(v ssa.Value) bool { _, f, _ := loadedField(v); return f == m.fPrefix })},
 	}
 	var obs []Obligation
+	// the two one-shot renderers return their input unchanged exactly when the prefix or the text is EMPTY:
+	// every early-return test compares a length with 0 (or a string with "")
+	for _, sb := range sibs[:2] {
+		con := fmt.Sprintf("%s returns its input unchanged only for an empty prefix or an empty text", c.FnName(sb.fn))
+		nTests, wrong := 0, ""
+		for _, b := range sb.fn.Blocks {
+			ifi, isIf := b.Instrs[len(b.Instrs)-1].(*ssa.If)
+			if !isIf {
+				continue
+			}
+			// an If one of whose successors returns the text parameter itself
+			early := false
+			for _, su := range b.Succs {
+				if r := terminalReturn(su); r != nil && len(r.Results) == 1 && isParamN(sb.fn, resolveSpill(r.Results[0], r), 1) {
+					early = true
+				}
+			}
+			if !early {
+				continue
+			}
+			bo, isB := ifi.Cond.(*ssa.BinOp)
+			if !isB {
+				continue
+			}
+			nTests++
+			okForm := false
+			if bo.Op == token.EQL || bo.Op == token.NEQ {
+				if k, isK := constInt(bo.Y); isK && k == 0 {
+					if call, isC := bo.X.(*ssa.Call); isC {
+						if bi, isBi := call.Call.Value.(*ssa.Builtin); isBi && bi.Name() == "len" {
+							okForm = true
+						}
+					}
+				}
+				if sv, isS := constString(bo.Y); isS && sv == "" {
+					okForm = true
+				}
+			}
+			if !okForm {
+				wrong = c.InstrPos(ifi)
+			}
+		}
+		switch {
+		case wrong != "":
+			obs = append(obs, bad(R, con, wrong, "an early return of the unchanged input is taken under a test other than `is empty`: inputs of some non-zero length come back without their prefix"))
+		case nTests > 0:
+			obs = append(obs, ok(R, con, c.Pos(sb.fn.Pos()), fmt.Sprintf("%d emptiness test(s) guard the early return", nTests)))
+		default:
+			o := ok(R, con, c.Pos(sb.fn.Pos()), "no early return of the unchanged input")
+			o.Trivial = true
+			obs = append(obs, o)
+		}
+	}
 	feats := []struct {
 		key, what, broken string
 		get               func(renderShape) bool
